@@ -2,8 +2,9 @@ import AiocoapModel.Basic.Bytes
 /-!
 The compressed COSE object carried in the OSCORE option (RFC 8613 §6.1):
 `CanProtect._compress` (oscore.py:929-979) and `CanUnprotect._uncompress`
-(oscore.py:1462-1508, after the `fix:` commits: a context-hint flag without its length byte
-and the reserved Partial-IV lengths 6/7 are `DecodeError`s).
+(oscore.py:1462-1525, after the `fix:` commits: a context-hint flag without its length byte,
+the reserved Partial-IV lengths 6/7, bytes behind the announced fields, a non-empty option
+without flags and a Partial IV with leading zero bytes are `DecodeError`s).
 
 First byte: bits 0-2 `n` (Partial IV length), bit 3 `k` (KID present), bit 4 `h` (KID context
 present), bit 5 group flag, bits 6-7 reserved.
@@ -36,15 +37,25 @@ def compress (u : Unprot) : Option Bytes :=
     let fb := piv.length + kbit + (if u.group then 32 else 0)
     if fb = 0 then some [] else some (fb :: piv ++ kid)
 
-/-- `_uncompress`: `none` is a `DecodeError`. -/
+/-- a Partial IV in its shortest form: no leading zero byte, except for the single byte `00`
+(RFC 8613 §5; `pivsz > 1 and tail[0] == 0` is refused by `_uncompress`) -/
+def pivMinimal : Bytes → Bool
+  | 0 :: _ :: _ => false
+  | _ => true
+
+/-- `_uncompress`: `none` is a `DecodeError`.  After the `fix:` commits of round 4 nothing may
+follow the announced fields (without the k flag the rest of the option is not a KID), an option
+whose flag bits are all zero must be empty, and a Partial IV must be in its shortest form. -/
 def uncompress (opt : Bytes) : Option Unprot :=
   match opt with
   | [] => some Unprot.empty
   | fb :: tail =>
+    if fb = 0 then none else                   -- "Protected data without any flags is not empty"
     if fb / 64 % 4 ≠ 0 then none else          -- reserved bits
     let pivsz := fb % 8
     if pivsz > 5 then none else                -- reserved lengths 6, 7
     if tail.length < pivsz then none else      -- "Partial IV announced but not present"
+    if !pivMinimal (tail.take pivsz) then none else   -- "Partial IV is not in its shortest form"
     let piv := if pivsz = 0 then none else some (tail.take pivsz)
     let tail := tail.drop pivsz
     let k := fb / 8 % 2 = 1
@@ -54,9 +65,12 @@ def uncompress (opt : Bytes) : Option Unprot :=
       | [] => none                             -- length byte missing
       | s :: t =>
         if t.length < s then none else         -- "Context hint announced but not present"
-        some { piv, kidContext := some (t.take s),
-               kid := if k then some (t.drop s) else none, group := g }
+        if k then some { piv, kidContext := some (t.take s), kid := some (t.drop s), group := g }
+        else if t.length ≠ s then none         -- "Protected data extends beyond the announced fields"
+        else some { piv, kidContext := some (t.take s), kid := none, group := g }
     else
-      some { piv, kidContext := none, kid := if k then some tail else none, group := g }
+      if k then some { piv, kidContext := none, kid := some tail, group := g }
+      else if tail.length ≠ 0 then none        -- "Protected data extends beyond the announced fields"
+      else some { piv, kidContext := none, kid := none, group := g }
 
 end Aiocoap.Oscore.Prot
